@@ -313,6 +313,8 @@ where
                 let rank_end = prefetch_support[level].approx_rank_unchecked(two_bits, range.end);
 
                 range = (rank_start + offset)..(rank_end + offset);
+                #[cfg(qwt_verif)]
+                crate::verif::probe(6);
                 self.qvs[level + 1].prefetch_info(range.start);
                 self.qvs[level + 1].prefetch_info(range.start + 2048);
 
@@ -571,6 +573,8 @@ where
         let mut cur_p = 0;
 
         for level in 0..self.n_levels - 1 {
+            #[cfg(qwt_verif)]
+            crate::verif::sched_point();
             let two_bits: u8 = ((symbol >> shift as usize).as_() & 3) as u8;
 
             // Safety: Here we are sure that two_bits is a symbol in [0..3]
@@ -654,6 +658,8 @@ where
 
         let mut cur_i = i;
         for level in 0..self.n_levels - 1 {
+            #[cfg(qwt_verif)]
+            crate::verif::sched_point();
             // The last rank can be saved. The improvement is just ~3%. Indeed, most of the cost is for the cache miss for data access that we pay anyway
 
             self.qvs[level].prefetch_info(cur_i); // Compiler is not able to infer that later it is needed for the rank query. Access is roughly 33% slower for large files without this.
@@ -711,6 +717,8 @@ where
         let mut shift: i64 = 2 * (self.n_levels - 1) as i64;
 
         for level in 0..self.n_levels {
+            #[cfg(qwt_verif)]
+            crate::verif::sched_point();
             path_off.push(b);
 
             let two_bits = (symbol >> shift as usize).as_() & 3;
@@ -727,6 +735,8 @@ where
         shift = 0;
         let mut result = i;
         for level in (0..self.n_levels).rev() {
+            #[cfg(qwt_verif)]
+            crate::verif::sched_point();
             b = path_off[level];
             let rank_b = rank_path_off[level];
             let two_bits = (symbol >> shift as usize).as_() & 3;
